@@ -146,7 +146,8 @@ func loadRegions(
 	f func(region *RegionInfo) []*RegionInfo,
 ) error {
 	nextID := uint64(0)
-	endKey := regionPath(math.MaxUint64)
+	// the range end is exclusive: step just past the key of the largest id
+	endKey := regionPath(math.MaxUint64) + "\x00"
 
 	// Since the region key may be very long, using a larger rangeLimit will cause
 	// the message packet to exceed the grpc message size limit (4MB). Here we use
@@ -180,7 +181,8 @@ func loadRegions(
 			}
 		}
 
-		if len(res) < rangeLimit {
+		// nextID == 0: the id wrapped around, every region has been visited
+		if len(res) < rangeLimit || nextID == 0 {
 			return nil
 		}
 	}
